@@ -26,14 +26,23 @@ def mkNaming (contents : List Content) (tab : List TabRow) : Naming where
     | some i => ((tab.find? (fun t => t.ci = i ∧ t.comp = comp)).map (·.name)).getD s!"?{comp}-{i}"
     | none => s!"?{comp}"
 
-def planOf (j : Json) : Plan :=
+/-- the fault of the harness by name: the four outcomes of the shared fault model, the
+error classes the code tells apart (`notFound`, `alreadyExists`), and `error` for every
+other class (Invalid, Forbidden, server timeout, Temporary() transport error, deadline) -/
+def faultOf : String → Fault
+  | "conflict" => .out .conflict
+  | "crashBefore" => .out .crashBefore
+  | "crashAfter" => .out .crashAfter
+  | "notFound" => .reply .notFound
+  | "alreadyExists" => .reply .alreadyExists
+  | "invalid" | "forbidden" | "timeout" | "temporary" | "deadline" => .reply .error
+  | _ => .out .fail
+
+def fplanOf (j : Json) : FPlan :=
   let fs := (arr j "plan").map fun f => (nat f "k", str f "o")
   fun i => match fs.find? (·.1 = i) with
-    | some (_, "fail") => .fail
-    | some (_, "conflict") => .conflict
-    | some (_, "crashBefore") => .crashBefore
-    | some (_, "crashAfter") => .crashAfter
-    | _ => .ok
+    | some (_, o) => faultOf o
+    | none => .out .ok
 
 def ctrlStr : Option Nat → String
   | none => "none"
@@ -44,9 +53,10 @@ def revJson (r : Rev) : Json :=
     ("ctrl", .str (ctrlStr r.ctrl)), ("labels", Json.mkObj (r.labels.map fun (k, v) => (k, Json.str v))),
     ("spec", .num (Lean.JsonNumber.fromNat r.spec))]
 
-def stateJson (res : String) (xrNames : List String) (s : Store) : Json :=
+def stateJson (res : String) (xrNames : List String) (enq : List String) (s : Store) : Json :=
   Json.mkObj [("res", .str res), ("revs", Json.arr (s.revs.map revJson).toArray),
-    ("xrefs", Json.arr (xrNames.map fun n => Json.str (((s.xrs.find? (·.name = n)).bind (·.ref)).getD "")).toArray)]
+    ("xrefs", Json.arr (xrNames.map fun n => Json.str (((s.xrs.find? (·.name = n)).bind (·.ref)).getD "")).toArray),
+    ("enq", Json.arr (enq.map Json.str).toArray)]
 
 /-- Bool version of the step relation of the theorems: every revision of `a` is
 still in `b`, unchanged except for a number that did not decrease and its owner. -/
@@ -54,20 +64,94 @@ def leB (a b : Store) : Bool :=
   a.revs.all fun r => b.revs.any fun r' =>
     r'.name = r.name && r'.comp = r.comp && r'.hash = r.hash && r'.spec = r.spec && r'.labels == r.labels && r.num ≤ r'.num
 
-/-- numbers distinct within one composition, names distinct, numbers ≥ 1 -/
-def wfB (s : Store) : Bool :=
-  s.revs.all fun r => 1 ≤ r.num && (s.revs.filter fun r' => r'.name = r.name).length = 1 &&
-    (s.revs.filter fun r' => r'.comp = r.comp && r'.num = r.num).length = 1
+/-- names distinct, numbers ≥ 1 (what holds under any interference and cache lag) -/
+def wf0B (s : Store) : Bool :=
+  s.revs.all fun r => 1 ≤ r.num && (s.revs.filter fun r' => r'.name = r.name).length = 1
 
-def currentHighestB (H : Naming) (s : Store) (comp : String) : Bool :=
-  match s.comps.find? (·.name = comp) with
-  | none => true
-  | some c =>
-    if c.deleting then true else
-    match s.revs.find? (fun r => r.comp = comp ∧ r.hash = H.hash c.content) with
-    | none => false
-    | some cur => cur.ctrl = some c.uid && cur.spec = c.content.spec && cur.labels == c.content.labels &&
-        s.revs.all fun r => r.name = cur.name || r.comp ≠ comp || r.num < cur.num
+/-- … and numbers distinct within one composition (single reconciler, fresh lists). `stale`:
+the revisions whose number was assigned by a reconcile that had read a lagging revision list
+(recorded finding D22) — a tie is attributed to it iff it involves one of them. -/
+def numsB (stale : List String) (s : Store) : Bool :=
+  s.revs.all fun r => s.revs.all fun r' =>
+    r'.name = r.name || r'.comp ≠ r.comp || r'.num ≠ r.num || stale.contains r.name || stale.contains r'.name
+
+def wfB (stale : List String) (s : Store) : Bool := wf0B s && numsB stale s
+
+/-- the revision of content `c` (the Composition as the reconcile read it) exists, is
+faithful and has the strictly highest number; `ctrl`: it is controlled by `c` (not claimed
+when other clients interfered with the reconcile or the cache lagged) -/
+def currentHighestB (H : Naming) (stale : List String) (s : Store) (c : Comp) (ctrl : Bool) : Bool :=
+  if c.deleting then true else
+  match s.revs.find? (fun r => r.comp = c.name ∧ r.hash = H.hash c.content) with
+  | none => false
+  | some cur => (!ctrl || cur.ctrl = some c.uid) && cur.spec = c.content.spec && cur.labels == c.content.labels &&
+      s.revs.all fun r => r.name = cur.name || r.comp ≠ c.name || r.num < cur.num ||
+        stale.contains cur.name || stale.contains r.name
+
+def pairwiseAdj (f : Store → Store → Bool) : List Store → Bool
+  | a :: b :: rest => f a b && pairwiseAdj f (b :: rest)
+  | _ => true
+
+/-- one action of the environment (top-level event, or between two API calls) -/
+def applyOp (contents : List Content) (s : Store) (e : Json) : Store :=
+  let comp := str e "comp"
+  let cur := s.comps.find? (·.name = comp)
+  match str e "op" with
+  | "edit" =>
+    match cur, contents[nat e "ci"]? with
+    | some c, some ct => envStep s (.putComp { c with content := ct })
+    | _, _ => s
+  | "restore" =>
+    match cur with
+    | some c =>
+      let s1 := envStep s (.putComp { c with uid := nat e "uid", deleting := false })
+      if bool e "keep" then s1
+      else envStep s1 (.setCtrl ((s1.revs.filter (·.comp = comp)).map (·.name)) none)
+    | none => s
+  | "deleting" =>
+    match cur with
+    | some c => envStep s (.putComp { c with deleting := true })
+    | none => s
+  | "strip" => envStep s (.setCtrl (strs e "names") none)
+  | "foreign" => envStep s (.setCtrl (strs e "names") (some 999))
+  | "setxr" =>
+    match s.xrs.find? (·.name = str e "xr") with
+    | some x =>
+      let pol := match str e "policy" with | "Manual" => some Policy.manual | "Automatic" => some Policy.automatic | _ => none
+      let sel := if has e "sel" then some (labelsOf e "sel") else none
+      let ref := match str e "pin" with | "" => x.ref | "-" => none | n => some n
+      let x' : XR := { x with policy := pol, selector := sel, ref := ref }
+      -- an edit that changes nothing does not move the resourceVersion
+      if x' = x then s else envStep s (.putXR { x' with rv := x.rv + 1 })
+    | none => s
+  | _ => s
+
+/-- what other clients do right before API call `k` of the event -/
+def envOf (contents : List Content) (e : Json) : Env Store := fun k s =>
+  (arr e "env").foldl (fun s ea => if nat ea "before" = k then (arr ea "acts").foldl (applyOp contents) s else s) s
+
+def hasEnv (e : Json) : Bool := (arr e "env").any fun ea => !(arr ea "acts").isEmpty
+
+/-- the informer cache of the event: `d ≥ 1` = the state at the beginning of the event
+`d-1` events back (`snaps[i]` = state at the beginning of event `i`, `i` = this event) -/
+def viewOf (e : Json) (snaps : Array Store) (i : Nat) : View :=
+  let l := (e.getObjVal? "lag").toOption.getD Json.null
+  let at_ (d : Nat) : Option Store := if d = 0 then none else snaps[i - (d - 1)]?
+  { revs := (at_ (nat l "revs")).map (·.revs), comps := (at_ (nat l "comps")).map (·.comps), xrs := (at_ (nat l "xrs")).map (·.xrs) }
+
+def lagged (e : Json) : Bool :=
+  let l := (e.getObjVal? "lag").toOption.getD Json.null
+  nat l "revs" > 0 || nat l "comps" > 0
+
+def revKey (r : Rev) : String × Nat × Option Nat := (r.name, r.num, r.ctrl)
+
+structure Acc where
+  s : Store
+  outs : List Json
+  ok : Bool
+  why : String
+  snaps : Array Store
+  stale : List String
 
 def handler : Handler := fun scn =>
   let contents := (arr scn "contents").map contentOf
@@ -78,56 +162,60 @@ def handler : Handler := fun scn =>
   let xrNames := (arr scn "xrs").map (str · "name")
   let comps := (arr scn "comps").filterMap fun c =>
     (contents[nat c "ci"]?).map fun ct => (⟨str c "name", nat c "uid", ct, false⟩ : Comp)
-  let xrs := (arr scn "xrs").map fun x => (⟨str x "name", str x "comp", none, none, none⟩ : XR)
+  let xrs := (arr scn "xrs").map fun x => (⟨str x "name", str x "comp", none, none, none, 0⟩ : XR)
   let s0 : Store := ⟨comps, [], xrs⟩
-  let step (acc : Store × List Json × Bool × String) (e : Json) : Store × List Json × Bool × String :=
-    let (s, outs, okSoFar, why) := acc
+  let step (acc : Acc) (e : Json) : Acc :=
+    let s := acc.s
+    let snaps := acc.snaps.push s
+    let i := acc.snaps.size
     let comp := str e "comp"
-    let cur := s.comps.find? (·.name = comp)
-    let (s', res, good, w) : Store × String × Bool × String :=
+    let env := envOf contents e
+    let plan := fplanOf e
+    let v := viewOf e snaps i
+    -- the cache catches up right before API call `until` (0 = stays behind)
+    let until_ := nat ((e.getObjVal? "lag").toOption.getD Json.null) "until"
+    let sm : Nat → Sem Store Req Resp := fun k => if until_ > 0 && k ≥ until_ then semV View.fresh else semV v
+    let (s', res, enq, good, w, stale') : Store × String × List String × Bool × String × List String :=
       match str e "op" with
-      | "edit" =>
-        match cur, contents[nat e "ci"]? with
-        | some c, some ct => (envStep s (.putComp { c with content := ct }), "", true, "")
-        | _, _ => (s, "", true, "")
-      | "restore" =>
-        match cur with
-        | some c =>
-          let s1 := envStep s (.putComp { c with uid := nat e "uid", deleting := false })
-          (envStep s1 (.setCtrl ((s1.revs.filter (·.comp = comp)).map (·.name)) none), "", true, "")
-        | none => (s, "", true, "")
-      | "deleting" =>
-        match cur with
-        | some c => (envStep s (.putComp { c with deleting := true }), "", true, "")
-        | none => (s, "", true, "")
-      | "strip" => (envStep s (.setCtrl (strs e "names") none), "", true, "")
-      | "foreign" => (envStep s (.setCtrl (strs e "names") (some 999)), "", true, "")
-      | "setxr" =>
-        match s.xrs.find? (·.name = str e "xr") with
-        | some x =>
-          let pol := match str e "policy" with | "Manual" => some Policy.manual | "Automatic" => some Policy.automatic | _ => none
-          let sel := if has e "sel" then some (labelsOf e "sel") else none
-          let ref := match str e "pin" with | "" => x.ref | "-" => none | n => some n
-          (envStep s (.putXR { x with policy := pol, selector := sel, ref := ref }), "", true, "")
-        | none => (s, "", true, "")
       | "rec" =>
-        let (s1, r) := run sem (planOf e) 0 (recProg comp) s
+        let (s1, r) := runX sm env plan 0 (recProg comp) s
         let res := match r with
           | none => "crashed" | some .done => "ok" | some .created => "created" | some .requeue => "requeue" | some .err => "err"
-        let good := !(res == "ok" || res == "created") || currentHighestB H s1 comp
-        -- every intermediate store keeps the invariants
-        let inter := (reach sem (planOf e) 0 (recProg comp) s).all fun m => leB s m && leB m s1 && wfB m
-        (s1, res, good && inter, if good then "C12:model-intermediate" else "C12:model-current-not-highest")
+        let created := s1.revs.filter fun r => !(s.revs.any (·.name = r.name))
+        let enq := (created.flatMap (enqueueFor s1.xrs)).eraseDups
+        let trace := reachX sm env plan 0 (recProg comp) s
+        -- did the cache serve a list that differs from the live revisions of the Composition?
+        let sList := env 1 (env 0 s)
+        let lagging : Bool := match (if until_ > 0 && 1 ≥ until_ then none else v.revs) with
+          | some l => (l.filter (·.comp = comp)).map revKey != (sList.revs.filter (·.comp = comp)).map revKey
+          | none => false
+        -- revisions whose number this reconcile assigned
+        let written := (s1.revs.filter fun r => ((s.revs.find? (·.name = r.name)).map (·.num)) != some r.num).map (·.name)
+        let stale' := if lagging then acc.stale ++ written else acc.stale.filter (!written.contains ·)
+        -- under any interference, error class and cache lag: nothing deleted or edited, numbers only grow
+        let weak := pairwiseAdj leB trace && trace.all wf0B
+        -- single reconciler on fresh lists: numbers distinct; the content read has the highest number
+        let cRead := match plan 0, ((sm 0).exec (env 0 s) (.getComp comp)).2 with
+          | .out .ok, .comp c => some c
+          | _, _ => none
+        let strong := trace.all (numsB (acc.stale ++ stale')) &&
+          (!(res == "ok" || res == "created") || lagging || match cRead with
+            | some c => currentHighestB H stale' s1 c (!hasEnv e && !lagged e)
+            | none => true)
+        (s1, res, enq, weak && strong, if !weak then "C12:model-not-monotone" else "C12:model-current-not-highest", stale')
       | "fetch" =>
-        let (s1, r) := run sem (planOf e) 0 (fetch (str e "xr")) s
+        let (s1, r) := runX sm env plan 0 (fetch (str e "xr")) s
         let res := match r with | none => "crashed" | some (.rev rv) => rv.name | some .err => "err"
-        (s1, res, s1.revs == s.revs, "C12:model-fetch-wrote-revisions")
-      | _ => (s, "?", true, "")
-    let mono := leB s s' && wfB s'
+        let own := ownX sm env plan 0 (fetch (str e "xr")) s
+        let noRevWrite := own.all fun x => match x.2 with | .updateRev _ _ | .createRev _ => false | _ => true
+        (s1, res, [], noRevWrite, "C12:model-fetch-wrote-revisions", acc.stale)
+      | _ => (applyOp contents s e, "", [], true, "", acc.stale)
+    let mono := leB s s' && wfB stale' s'
     let ok' := good && mono
-    (s', outs ++ [stateJson res xrNames s'], okSoFar && ok',
-      if !okSoFar then why else if !good then w else if !mono then "C12:model-not-monotone" else "")
-  let (_, outs, ok, why) := (arr scn "events").foldl step (s0, [], true, "")
-  .ok (Json.mkObj [("steps", Json.arr outs.toArray)], ok, why)
+    { s := s', outs := acc.outs ++ [stateJson res xrNames enq s'], ok := acc.ok && ok',
+      why := if !acc.ok then acc.why else if !good then w else if !mono then "C12:model-not-monotone" else "",
+      snaps := snaps, stale := stale' }
+  let fin := (arr scn "events").foldl step { s := s0, outs := [], ok := true, why := "", snaps := #[], stale := [] }
+  .ok (Json.mkObj [("steps", Json.arr fin.outs.toArray)], fin.ok, fin.why)
 
 end Xp.C12
